@@ -141,6 +141,6 @@ func (ds *dataStore) leaveListBlock(ws *wakeSignal) {
 	ds.waitingClients.disposeWakeSignal(ws)
 }
 
-func (ds *dataStore) unblockListUnlocked(keyName string, elements int) {
-	ds.waitingClients.unblock(keyName, elements)
+func (ds *dataStore) unblockListUnlocked(keyName string, elements int, self *wakeSignal) {
+	ds.waitingClients.unblockExcept(keyName, elements, self)
 }
